@@ -437,14 +437,15 @@ def r5b(ctx):
 
 def r6(ctx):
     from ..fx import FX, param_name
-    from .c13 import REVIEWED
+    from .c13 import REVIEWED, REVIEWED_IN_MODULE
     m = ctx.model
     fx = FX(m)
     for kind in ('serialize', 'write'):
         fi = m.registered(kind, 'fits')
         s = fx.summary(fi)
         muts = [e for e in s.muts if e.target[0] == 'param' and not e.via.startswith('iteration')
-                and (e.func, ' '.join(e.stmt.split())) not in REVIEWED]
+                and (e.func, ' '.join(e.stmt.split())) not in REVIEWED
+                and (e.func.split(':')[0], ' '.join(e.stmt.split())) not in REVIEWED_IN_MODULE]
         if muts:
             e = muts[0]
             ctx.bad(fi.qualname.split(':')[1], f'mutates:{" ".join(e.stmt.split())[:60]}',
